@@ -282,6 +282,7 @@ func runC13(r *mon.Run) {
 	// verified" if the reduced signature is VALID, which needs r < 2^32+977 or
 	// s < 2^256-n: unreachable through honest signing (2^-128) and not constructible
 	// (the challenge hashes r).  The parse stage itself is therefore observed.
+	runColdStart(r, "c13", r.N(12, 200), "schnorrverify", "schnorrsign")
 	if !hk.HaveBtcParse {
 		r.Note("hook group verif_btcparse unavailable: the parse stage (r < p, s < n rejected rather than reduced) is observed through Verify's verdict only")
 		return
